@@ -9,6 +9,7 @@ A viewer is `<kind> D px py pz qw qx qy qz ox oy oz c0 s0 c1 s1` (kind `P`oint /
 `(cos, sin)` of half of `viewAngles[0]` and of `viewAngles[1]`); a box is `cx cy cz qw qx qy qz hx hy hz`.
 
 * `pt  <viewer> tx ty tz n <box>*n`   -> `1`/`0`   the model of `X.canSee(<vector>, occludingObjects)`
+* `rpt <viewer> tx ty tz n <box>*n`   -> `1`/`0`   the same with the reference configuration (specification side)
 * `vol <viewer> tx ty tz`             -> `1`/`0`   membership in the view volume (specification side)
 * `out <viewer> <box>`                -> `1`/`0`   certificate "box wholly outside the view volume"
 * `in  <viewer> <box> ux uy`          -> `1`/`0`   certificate "box wholly inside the view volume"
@@ -34,7 +35,7 @@ def mkHalf : List Rat → Option (Half × List Rat)
   | c :: s :: rest => some (⟨c, s⟩, rest)
   | _ => none
 
-def mkViewerFrom (kind : String) (xs : List Rat) : Option (Viewer × List Rat) := do
+def mkViewerFrom (kind : String) (xs : List Rat) (wrap : WrapCfg := WRAP) : Option (Viewer × List Rat) := do
   let (D, xs) ← match xs with
     | d :: r => some (d, r)
     | [] => none
@@ -44,9 +45,9 @@ def mkViewerFrom (kind : String) (xs : List Rat) : Option (Viewer × List Rat) :
   let (a0, xs) ← mkHalf xs
   let (a1, xs) ← mkHalf xs
   match kind with
-  | "P" => some (mkViewer WRAP .point p R off D a0 a1, xs)
-  | "O" => some (mkViewer WRAP .oriented p R off D a0 a1, xs)
-  | "B" => some (mkViewer WRAP .object p R off D a0 a1, xs)
+  | "P" => some (mkViewer wrap .point p R off D a0 a1, xs)
+  | "O" => some (mkViewer wrap .oriented p R off D a0 a1, xs)
+  | "B" => some (mkViewer wrap .object p R off D a0 a1, xs)
   | "R" => some (⟨p, R, D, a0, a1⟩, xs)
   | _ => none
 
@@ -79,8 +80,20 @@ def handle : List String → String
         | _ => "bad-op"
       | none => "bad-op"
     | none => "bad-op"
+  | "rpt" :: kind :: rest => match rest.mapM parseRat with
+    | some xs => match mkViewerFrom kind xs WrapCfg.reference with
+      | some (vw, xs) => match mkV xs with
+        | some (t, n :: xs) =>
+          if n.den = 1 ∧ 0 ≤ n.num then
+            match mkBoxes n.num.toNat xs with
+            | some bs => bit (pointVisible Cfg.reference vw t bs)
+            | none => "bad-op"
+          else "bad-op"
+        | _ => "bad-op"
+      | none => "bad-op"
+    | none => "bad-op"
   | "vol" :: kind :: rest => match rest.mapM parseRat with
-    | some xs => match mkViewerFrom kind xs with
+    | some xs => match mkViewerFrom kind xs WrapCfg.reference with
       | some (vw, xs) => match mkV xs with
         | some (t, []) => bit (decide (InViewVolume vw t))
         | _ => "bad-op"
